@@ -136,15 +136,16 @@ def open_pair(sx, trace=None, server_opts=None, client_opts=None, server_mixin=N
     return clock, trace, s, c, rnd
 
 
-def open_one(sx, server, opts=None, trace=None, mixin=None, url="ws://localhost:9000", attrs=None, fixed_rnd=False):
-    """a single real endpoint brought to OPEN by a canned peer handshake (cheaper than a pair)"""
+def open_one(sx, server, opts=None, trace=None, mixin=None, url="ws://localhost:9000", attrs=None, fixed_rnd=False, fw="twisted"):
+    """a single real endpoint brought to OPEN by a canned peer handshake (cheaper than a pair).
+    fw="asyncio": the asyncio adapter on a virtual-time loop behind the same driving interface (see AioClock / AioProto)"""
     import base64
     import hashlib
-    clock = setup_twisted()
+    clock = setup_fw(fw)
     trace = Trace() if trace is None else trace
     rnd = patch_env(sx, clock, fixed_rnd=fixed_rnd)
     who = "S" if server else "C"
-    ep, f = make_endpoint(sx, who, server, trace, clock, opts, url, mixin, None, attrs)
+    ep, f = make_endpoint_fw(fw, sx, who, server, trace, clock, opts, url, mixin, None, attrs)
     ep.p.makeConnection(ep.t)
     if server:
         key = base64.b64encode(_FIXED_KEY)
@@ -449,3 +450,86 @@ def open_one_aio(sx, server, opts=None, trace=None):
     ep.t.take()
     del trace[:]
     return loop, trace, ep, rnd
+
+
+# ------------------------------------------------------------------------------------------
+# one driving interface for both frameworks: harnesses written against the Twisted names
+# (clock.seconds/advance/getDelayedCalls, p.makeConnection/dataReceived/connectionLost) drive the
+# asyncio adapter through these shims, on an event loop whose time() is a harness variable
+# ------------------------------------------------------------------------------------------
+class _AioCall:
+    def __init__(self, h):
+        self.h = h
+
+    def getTime(self):
+        return self.h._when
+
+
+class AioClock:
+    """virtual time for a real asyncio loop: loop.time() is replaced; advance() moves it and lets due timers and ready callbacks run"""
+
+    def __init__(self, loop):
+        self.loop, self.now = loop, 0.0
+        loop.time = self.seconds
+
+    def seconds(self):
+        return self.now
+
+    def advance(self, dt):
+        self.now += dt
+        run_loop(self.loop, 2)
+
+    def getDelayedCalls(self):
+        return [_AioCall(h) for h in self.loop._scheduled if not h._cancelled]
+
+
+class AioProto:
+    """asyncio-adapter protocol behind the Twisted method names used by the harnesses; ready callbacks are run after each event
+    (the adapter processes received segments from a loop callback)"""
+
+    def __init__(self, p, loop):
+        self.__dict__["_p"] = p
+        self.__dict__["_loop"] = loop
+
+    def makeConnection(self, t):
+        self._p.connection_made(t)
+        run_loop(self._loop, 2)
+
+    def dataReceived(self, data):
+        self._p.data_received(data)
+        run_loop(self._loop, 2)
+
+    def connectionLost(self, exc=None):
+        self._p.connection_lost(exc)
+        run_loop(self._loop, 2)
+
+    def __getattr__(self, n):
+        return getattr(self.__dict__["_p"], n)
+
+    def __setattr__(self, n, v):
+        setattr(self.__dict__["_p"], n, v)
+
+
+def setup_fw(fw):
+    if fw == "twisted":
+        return setup_twisted()
+    return AioClock(setup_asyncio())
+
+
+def make_endpoint_fw(fw, sx, who, server, trace, clock, opts=None, url="ws://localhost:9000", mixin=None, factory_kwargs=None, extra_attrs=None):
+    if fw == "twisted":
+        return make_endpoint(sx, who, server, trace, clock, opts, url, mixin, factory_kwargs, extra_attrs)
+    assert mixin is None
+    ep, f = make_endpoint_aio(sx, who, server, trace, clock.loop, opts, url, factory_kwargs, extra_attrs)
+    ep.p = AioProto(ep.p, clock.loop)
+    return ep, f
+
+
+def lost(ep, fw="twisted", clean=True):
+    """the TCP connection is gone (peer drop, or our own loseConnection/abort taking effect)"""
+    if fw == "twisted":
+        from twisted.python.failure import Failure
+        from twisted.internet.error import ConnectionDone, ConnectionLost
+        ep.p.connectionLost(Failure(ConnectionDone() if clean else ConnectionLost()))
+    else:
+        ep.p.connectionLost(None if clean else ConnectionResetError("peer reset"))      # asyncio: None = EOF / our own close()
